@@ -128,6 +128,22 @@ func matchJSONValue(v GVal, n jnode) string {
 		if !isStr(n, levelName(v.I)) {
 			return bad("level name differs")
 		}
+	case "stackerr": // an errors.v3 error that carries its stack: {"message":text,"trace":{"file":..,"line":..,"func":..}}
+		if n.Kind != "object" || len(n.Members) < 1 || n.Members[0].Key != "message" || !isStr(n.Members[0].Val, fixUTF8(v.S)) {
+			return bad("error message differs")
+		}
+		for _, m := range n.Members[1:] {
+			if m.Key != "trace" || m.Val.Kind != "object" {
+				return bad("unexpected member " + m.Key + " in the error object")
+			}
+			for _, t := range m.Val.Members {
+				switch {
+				case t.Key == "file" && t.Val.Kind == "string", t.Key == "func" && t.Val.Kind == "string", t.Key == "line" && t.Val.Kind == "number":
+				default:
+					return bad("unexpected member " + t.Key + " in the trace object")
+				}
+			}
+		}
 	case "error":
 		if n.Kind == "object" && len(n.Members) >= 1 && n.Members[0].Key == "message" && isStr(n.Members[0].Val, fixUTF8(v.S)) {
 			return ""
@@ -376,6 +392,22 @@ func encCorpus(mode string, p EncProfile) []EncRec {
 	return out
 }
 
+func stackErrCorpus(mode string) []EncRec {
+	var out []EncRec
+	se := func(t string) GVal { return GVal{Kind: "stackerr", S: t} }
+	for _, caller := range []bool{false, true} {
+		for _, lvl := range []int{2, 4, 5} {
+			cfg := EncCfg{Mode: mode, Level: lvl, TagWidth: 3, MinWidth: 36, Caller: caller}
+			out = append(out,
+				EncRec{cfg, "m", []GAttr{{Key: "err", Val: se("boom")}}},
+				EncRec{cfg, "m", []GAttr{{Key: "a", Val: GVal{Kind: "int", I: 1}}, {Key: "err", Val: se("quote\" and\nbreak")}, {Key: "z", Val: GVal{Kind: "string", S: "last"}}}},
+				EncRec{cfg, "two\nlines", []GAttr{{Key: "g", Val: GVal{Kind: "group", Items: []GAttr{{Key: "e1", Val: se("inner")}, {Key: "k", Val: GVal{Kind: "bool", B: true}}}}}, {Key: "e2", Val: se("")}}},
+			)
+		}
+	}
+	return out
+}
+
 func genEncRec(r *Rng, mode string, p EncProfile) EncRec {
 	cfg := EncCfg{Mode: mode, Level: []int{0, 1, 2, 3, 4, 5, 6, 8, 9, 10, 11, customLevel, unregLevel, fgOnlyLevel, fgBgLevel, lateLevel}[r.Intn(16)],
 		Caller: r.Chance(30), TagWidth: 3, MinWidth: 36}
@@ -409,6 +441,21 @@ func runEncoder(r *Run, id, mode, corr string, p EncProfile, oracle func(EncRec,
 			}
 		}
 	})
+	if mode != "color" {
+		// values outside the model, direct oracle only: errors that carry their stack, with and without the caller field
+		for i, rec := range stackErrCorpus(mode) {
+			payloads := rec.emit()
+			if why := oracle(rec, payloads); why != "" {
+				var so []byte
+				if len(payloads) > 0 {
+					so = payloads[0]
+				}
+				r.Fail(classifyEnc(id, why, rec), why, encCase{"corpus-stackerr", rec, strconv.Quote(string(so)), why})
+			}
+			r.Count(true, fmt.Sprintf("stackerr %d %+v", i, rec))
+			r.Dist["kind=stackerr"]++
+		}
+	}
 	for i := r.N(quick, thorough); i > 0; i-- {
 		pp := p
 		if r.Thorough() && r.R.Chance(30) {
@@ -495,6 +542,15 @@ func replayEnc(id string) func(r *Run, file string) {
 		encSetup(snap)
 		oracle := map[string]func(EncRec, [][]byte) string{"C04": oracleJSON, "C05": oracleLogfmt, "C06": oracleColor}[id]
 		runeSet := map[rune]bool{}
+		if c.Kind == "corpus-stackerr" { // outside the model: direct oracle only
+			payloads := c.Rec.emit()
+			if why := oracle(c.Rec, payloads); why != "" {
+				r.Fail(classifyEnc(id, why, c.Rec), why, c)
+			}
+			r.Count(true, "replay")
+			finishReplay(r)
+			return
+		}
 		encOne(r, id, c.Rec, oracle, "replay", runeSet)
 		r.Coq("Require Import Verif.Model.Base Verif.Model.Mode Verif.Model.Attrs Verif.Corr.Enc Verif.Corr."+id+".", "Enc.ecase", "(ok isp)")
 		r.Prelude(isprintPrelude(runeSet))
